@@ -25,7 +25,7 @@ def canon(line):
     return " | ".join([head + (" " + raw_ops if raw_ops else "")] + segs)
 
 
-def run_walks(seed, tier, label, n_quick, n_thorough, adversarial=False, strict=False, length=80, snap_after_svc=False, replay_model=True, profile=None, plans=False):
+def run_walks(seed, tier, label, n_quick, n_thorough, adversarial=False, strict=False, length=80, snap_after_svc=False, replay_model=True, profile=None, plans=False, plan_policies=False):
     rng = Rng(seed, "walks:" + label)
     n = n_quick if tier == "quick" else n_thorough
     h = Proc([HARNESS_BIN], "harness")
@@ -41,7 +41,7 @@ def run_walks(seed, tier, label, n_quick, n_thorough, adversarial=False, strict=
         if plans:
             # the planned interruptions: every stage of every kind of operation, on two connections in a row
             from walk import PlanWalk, plan_matrix
-            for j, pl in enumerate(plan_matrix(tier)):
+            for j, pl in enumerate(plan_matrix(tier, plan_policies)):
                 h.ask("session.reset")
                 w = PlanWalk(Rng(seed, f"plan:{j}"), h, pl)
                 w.run()
